@@ -2,8 +2,8 @@ SPECIFICATION Spec
 CONSTANTS
   Helper = "MC"
   Mode = "with"
-  Prims <- McTimed
-  MaxLen = 3
+  Prims <- McQuick
+  MaxLen = 1
   DH = 300
   DV = 500
   DL = 0
@@ -13,7 +13,7 @@ CONSTANTS
   Z0 = 0
   Lats = {}
   MaxLat = 0
-  Bug = "none"
+  Bug = "kbdfast"
 INVARIANT NoViolation
 INVARIANT Ended
 INVARIANT PosTracks
